@@ -391,7 +391,7 @@ func JSONWriteLinkValue(b *[]byte, l Link) (notEmpty bool) {
 		notEmpty = JSONWriteIntProp(b, "width", int64(l.Width))
 	}
 	if l.Preview != nil {
-		notEmpty = JSONWriteItemProp(b, "rel", l.Preview) || notEmpty
+		notEmpty = JSONWriteItemProp(b, "preview", l.Preview) || notEmpty
 	}
 	if v, err := l.Href.MarshalJSON(); err == nil && len(v) > 0 {
 		notEmpty = JSONWriteProp(b, "href", v) || notEmpty
